@@ -3,7 +3,7 @@
 ``script`` maps a stage name to an outcome; every stage not mentioned answers with its normal 2xx/3xx
 reply.  Stages: banner, ehlo, helo, starttls, tls (the handshake itself), auth, mail, rcpt<i>, data,
 eod (SMTP) / eod<i> (LMTP, i = index among the accepted recipients), rset, quit.
-Outcomes: '2' success, '4' -> 451, '5' -> 550, '500' (EHLO: triggers HELO fallback), 'malformed'
+Outcomes: '2' success, '4' -> 451, '5' -> 550, '500' (EHLO: triggers HELO fallback), '5+close' / '4+close' (the reply, then the connection is closed at once), 'malformed'
 (a line that is no reply), 'badcode' (three digits outside 1xx-5xx), 'disconnect', 'stall' (never
 answer), '334-bad' (AUTH: a 334 challenge that is not base64), ('trickle', dt) (one byte of the reply every dt seconds), ('delay', dt) (the normal reply, dt
 seconds late), '251' (RCPT: accepted with 251), 'stall-after-334' (AUTH).
@@ -111,6 +111,13 @@ class ScriptedPeer(object):
             code, lines = '451', ['4.3.0 scripted temporary failure at %s%s' % (stage, self._tag())]
         elif out == '5':
             code, lines = '550', ['5.3.0 scripted permanent failure at %s%s' % (stage, self._tag())]
+        elif out in ('5+close', '4+close'):
+            # the reply, then the peer hangs up at once (the client finds the connection gone when it sends its next command)
+            code = '554' if out[0] == '5' else '451'
+            self._send(self._format(code, ['%s.3.0 scripted failure at %s, closing connection%s' % (out[0], stage, self._tag())]))
+            self.sock.close()
+            self.closed = True
+            raise Disconnect()
         elif out == '500':
             code, lines = '500', ['5.5.2 command not recognized']
         elif out == '421':
@@ -266,9 +273,9 @@ class ScriptedPeer(object):
                     tag = ' for ' + self.cur['sender'].decode('latin-1')
                 if self.lmtp:
                     res = []
+                    self.cur['results'] = res          # filled as the replies go out (a reply may be the last thing the peer does)
                     for j, r in enumerate(acc):
                         res.append((r, self._reply('eod%d' % j, 'eod', '2.0.0 delivered' + tag) == '2'))
-                    self.cur['results'] = res
                     if not all(ok for _, ok in res):
                         self.need_reset = True
                 else:
